@@ -90,3 +90,69 @@ Theorem C03_blob_decompresses_to_input :
     payloads (b_members b) = ser i es ++ match m with MLossless => if 0 <? tlen then trail i else [] | _ => [] end.
 Proof. intros i m chunk minc tlen es cs fs b W H. exact (build_payload i m chunk minc tlen es cs fs b W H). Qed.
 Print Assumptions C03_blob_decompresses_to_input.
+
+(* ---------------- the blob indexes itself consistently ---------------- *)
+
+(* For Writer, lossless append and Build with ANY worker count, ANY compressed sizes and flush observations:
+   the offset handed to WriteTOCAndFooter (what the footer records) is the end of the payload members, and
+   every offset-carrying TOC entry (non-empty "reg", "chunk") belongs to a regular file [e] of the input,
+   its [offset] is the compressed start of a member of the blob, and decompressing from there the bytes
+   [innerOffset, innerOffset + len) are exactly the bytes [chunkOffset, chunkOffset + len) of that file,
+   where len is computed the way a reader does (chunkSize, or the rest of the file when it is 0).
+   Offsets stay right across closeWithCombine's rebasing of the parallel sub-blobs. *)
+Theorem C03_self_index_consistent :
+  forall i m chunk minc tlen es cs fs b, Forall (wf_entry i) es ->
+    build_blob i m chunk minc tlen es cs fs = Ok b ->
+    b_total b = csum (b_members b) /\
+    forall t, In t (b_toc b) -> is_data t = true ->
+      exists e, In e es /\ e_id e = t_id t /\ e_kind e = KReg /\ located i (b_members b) e t.
+Proof. intros i m chunk minc tlen es cs fs b W H. exact (build_self_index i m chunk minc tlen es cs fs b W H). Qed.
+Print Assumptions C03_self_index_consistent.
+
+(* The TOC is complete and ordered: its entries are, input entry after input entry (dropped stargz.index.json
+   entries excepted), one entry for a non-regular or empty file and one "reg" followed by "chunk"s for a
+   non-empty file, whose (chunkOffset, chunkSize) are the ranges [chunks chunkSize fileSize]; and those
+   ranges, read in order, give back the whole file.  Same for every worker count. *)
+Theorem C03_toc_complete_and_tiling :
+  forall i m chunk minc tlen es cs fs b,
+    build_blob i m chunk minc tlen es cs fs = Ok b ->
+    let o := mkO chunk minc match m with MLossless => true | _ => false end in
+    map strip (b_toc b) = flat_map (toc_spec o) es
+    /\ forall e, N.of_nat (length (content i e)) = data_size e ->
+         concat (map (chunk_bytes i e) (chunks (eff_chunk o) (data_size e))) = content i e.
+Proof.
+  intros i m chunk minc tlen es cs fs b H o. split; [exact (build_toc_complete i m chunk minc tlen es cs fs b H)|].
+  intros e He. exact (spec_chunks_tile i o e He).
+Qed.
+Print Assumptions C03_toc_complete_and_tiling.
+
+(* ---------------- non-vacuity ---------------- *)
+
+(* A parallel build (3 workers, chunk size 512) of a small archive succeeds on the model, the hypotheses of
+   the theorems hold for it, it has several members, chunk entries with rebased offsets, and its payload is
+   the serialisation of the input without the old TOC entry. *)
+Example C03_nonvacuous_build :
+  Forall (wf_entry ex_io) ex_entries /\
+  match build_blob ex_io (MBuild 3) 512 0 0 ex_entries [100; 101; 102; 103; 104; 105; 106; 107] [] with
+  | Ok b => (length (b_members b) =? 7)%nat && existsb (fun t => is_data t && (0 <? t_off t) && (0 <? t_coff t)) (b_toc b)
+            && (b_total b =? 721) && (N.of_nat (length (payloads (b_members b))) =? 512 * 12)
+  | _ => false
+  end = true.
+Proof. split; [exact ex_wf|vm_compute; reflexivity]. Qed.
+
+(* MinChunkSize > 0: several files share one member; a TOC entry with innerOffset > 0 exists and is located. *)
+Example C03_nonvacuous_minchunk :
+  match build_blob ex_io MWriter 512 2000 0 ex_entries [300; 400; 500] [10; 700; 900; 2500; 10] with
+  | Ok b => existsb (fun t => is_data t && (0 <? t_inner t)) (b_toc b) && (1 <? length (b_members b))%nat
+  | _ => false
+  end = true.
+Proof. vm_compute; reflexivity. Qed.
+
+(* Lossless append refuses an input that already holds a TOC entry, and keeps the raw trailer otherwise. *)
+Example C03_nonvacuous_lossless :
+  build_blob ex_io MLossless 512 0 1024 ex_entries [1; 2; 3; 4; 5; 6; 7; 8] [] = Err
+  /\ match build_blob ex_io MLossless 512 0 1024 (firstn 4 ex_entries) [1; 2; 3; 4; 5; 6; 7; 8] [] with
+     | Ok b => N.of_nat (length (payloads (b_members b))) =? 512 * 11 + 1024
+     | _ => false
+     end = true.
+Proof. split; vm_compute; reflexivity. Qed.
